@@ -288,7 +288,7 @@ func group(c *vk.Ctx, srv *drive.Srv, sname string, v2 bool, di, g int) {
 				}
 				lo := srv.ListObjects(drive.Req{Store: w.p.Store, Object: t, Relation: rel, User: "user:a"})
 				c.Case(fmt.Sprintf("lo|%s|%s|n=%d", sname, ref.Shape(w.p.Ref.Rewrite(t, rel)), len(want)), len(want) > 0)
-				if lo.Err == nil {
+				if !sem.Hung(c, sname, lo) && lo.Err == nil {
 					gotl := append([]string{}, lo.Items...)
 					sort.Strings(gotl)
 					if strings.Join(gotl, ",") != strings.Join(want, ",") {
